@@ -241,4 +241,4 @@ func scribbleBytes(rv reflect.Value, depth int) {
 
 func init() { registrars = append(registrars, c11.Register) }
 
-func TestC11(t *testing.T) { c11.Check(t, vh.N(15000, 30000)) }
+func TestC11(t *testing.T) { c11.Check(t, vh.N(15000, 20000)) }
